@@ -142,6 +142,37 @@ impl AtomicBool {
     pub fn get_mut(&mut self) -> &mut bool {
         self.shadow.get_mut()
     }
+    // the rest of the std API, so that a change of the library that uses another operation
+    // still builds under loom (threads run one at a time, so the shadow copy written right
+    // after the operation follows the modification order)
+    pub fn swap(&self, v: bool, o: Ordering) -> bool {
+        let r = self.inner.swap(v, o);
+        unsafe { *self.shadow.get() = v };
+        r
+    }
+    pub fn compare_exchange(&self, current: bool, new: bool, success: Ordering, failure: Ordering) -> Result<bool, bool> {
+        let r = self.inner.compare_exchange(current, new, success, failure);
+        if r.is_ok() {
+            unsafe { *self.shadow.get() = new };
+        }
+        r
+    }
+    pub fn compare_exchange_weak(&self, current: bool, new: bool, success: Ordering, failure: Ordering) -> Result<bool, bool> {
+        self.compare_exchange(current, new, success, failure)
+    }
+    pub fn fetch_or(&self, v: bool, o: Ordering) -> bool {
+        let r = self.inner.fetch_or(v, o);
+        unsafe { *self.shadow.get() = r | v };
+        r
+    }
+    pub fn fetch_and(&self, v: bool, o: Ordering) -> bool {
+        let r = self.inner.fetch_and(v, o);
+        unsafe { *self.shadow.get() = r & v };
+        r
+    }
+    pub fn into_inner(self) -> bool {
+        self.shadow.into_inner()
+    }
 }
 
 pub struct AtomicPtr<T> {
@@ -176,6 +207,21 @@ impl<T> AtomicPtr<T> {
     pub fn get_mut(&mut self) -> &mut *mut T {
         self.shadow.get_mut()
     }
+    pub fn store(&self, p: *mut T, o: Ordering) {
+        unsafe { *self.shadow.get() = p };
+        self.inner.store(p, o)
+    }
+    pub fn swap(&self, p: *mut T, o: Ordering) -> *mut T {
+        let r = self.inner.swap(p, o);
+        unsafe { *self.shadow.get() = p };
+        r
+    }
+    pub fn compare_exchange_weak(&self, current: *mut T, new: *mut T, success: Ordering, failure: Ordering) -> Result<*mut T, *mut T> {
+        self.compare_exchange(current, new, success, failure)
+    }
+    pub fn into_inner(self) -> *mut T {
+        self.shadow.into_inner()
+    }
 }
 
 pub struct AtomicU64(loom::sync::atomic::AtomicU64);
@@ -188,5 +234,29 @@ impl AtomicU64 {
     }
     pub fn fetch_add(&self, v: u64, o: Ordering) -> u64 {
         self.0.fetch_add(v, o)
+    }
+    pub fn store(&self, v: u64, o: Ordering) {
+        self.0.store(v, o)
+    }
+    pub fn swap(&self, v: u64, o: Ordering) -> u64 {
+        self.0.swap(v, o)
+    }
+    pub fn fetch_sub(&self, v: u64, o: Ordering) -> u64 {
+        self.0.fetch_sub(v, o)
+    }
+    pub fn fetch_max(&self, v: u64, o: Ordering) -> u64 {
+        self.0.fetch_max(v, o)
+    }
+    pub fn fetch_min(&self, v: u64, o: Ordering) -> u64 {
+        self.0.fetch_min(v, o)
+    }
+    pub fn compare_exchange(&self, current: u64, new: u64, success: Ordering, failure: Ordering) -> Result<u64, u64> {
+        self.0.compare_exchange(current, new, success, failure)
+    }
+    pub fn compare_exchange_weak(&self, current: u64, new: u64, success: Ordering, failure: Ordering) -> Result<u64, u64> {
+        self.0.compare_exchange(current, new, success, failure)
+    }
+    pub fn fetch_update<F: FnMut(u64) -> Option<u64>>(&self, set: Ordering, fetch: Ordering, f: F) -> Result<u64, u64> {
+        self.0.fetch_update(set, fetch, f)
     }
 }
